@@ -15,7 +15,8 @@ EXPLANATION = ("Shutdown paths. R1: the exit drain can leave its loop only on th
                "the notice, SIGINT/SIGTERM exit with EXIT_SUCCESS and never re-raise, every raise is preceded by restoring SIG_DFL for "
                "that signal, the single-entry lock and the alarm precede all logging; init_signal_handler installs on_signal for every "
                "listed signal and on_alarm for SIGALRM; the default list is exactly the six signals of the property. R5: signals are "
-               "blocked before and restored after the backend thread is spawned.")
+               "blocked before and restored after the backend thread is spawned."
+               ' R4m-q: the handler logs only off the backend thread and only while one exists, later entrants are parked, the signal number is recorded before the alarm, the signal is re-raised iff asked, on_alarm raises the recorded signal. R6: the API layer forwards (Backend::stop -> BackendManager -> BackendWorker::stop; start -> run(options); ManualBackendWorker::init -> _init; poll() until empty); _init records the worker thread id.')
 NOT_DECIDED = ("Every crash point / process-exit ordering (static destruction order, async-signal-safety of the handler body), that "
                "the OS delivers the signal to a thread that logged before.")
 ASSUMPTIONS = ["C03/C06 for what one drain iteration and flush_log do"]
@@ -76,8 +77,39 @@ def r1(ctx, facts, cfg):
     proc = cpos(f, r"::_process_lowest_timestamp_transit_event$")
     ok = bool(pop) and bool(proc) and bool(edges) and all(
         not g.exists_path([tnode(g, b)], [tnode(g, b)], avoid_nodes=pop, avoid_edges=[(b, l)]) for (b, l) in edges)
-    ctx.ob("C07.R1c", "_exit:iteration-reads-and-processes", ok,
-           "every iteration that does not leave re-reads the frontend queues (and dispatches cached events) before testing again", fn=f)
+    # ... and dispatches whenever anything is buffered: the only outcome that skips the dispatch is 'the read pass buffered nothing and
+    # nothing was buffered before' — a guard like 'more than one event' leaves the last event in the buffer and the loop never ends
+    cnt_vars = [vid for vid, i in inits.items() if isnode(i) and any(is_call(x, r"::_populate_transit_events_from_frontend_queues$") for x in walk(i))]
+    skip_ok = True
+    guards = 0
+    for bid, b in g.blocks.items():
+        c = g.term_cond(bid)
+        if c is None or not any(var_ref(x) in cnt_vars for x in walk(c)):
+            continue
+        guards += 1
+        nc = norm_cmp(c)
+        cs = cmp_sides(c)
+        nonzero = None
+        if nc and nc[0] in ("==", "!=") and "0" in (nc[1], nc[2]):
+            nonzero = "T" if nc[0] == "!=" else "F"
+        elif cs and cs[0] == "<" and const_val(cs[1]) == 0 and var_ref(strip(cs[2], casts=True)) in cnt_vars:
+            nonzero = "T"                       # 0 < count
+        elif cs and cs[0] == "<=" and const_val(cs[1]) == 1 and var_ref(strip(cs[2], casts=True)) in cnt_vars:
+            nonzero = "T"                       # 1 <= count
+        elif cs and cs[0] == "<=" and var_ref(strip(cs[1], casts=True)) in cnt_vars and const_val(cs[2]) == 0:
+            nonzero = "F"                       # count <= 0
+        elif cs and cs[0] == "<" and var_ref(strip(cs[1], casts=True)) in cnt_vars and const_val(cs[2]) == 1:
+            nonzero = "F"                       # count < 1
+        if nonzero is None:
+            skip_ok = False
+            continue
+        start = [y for (y, l2) in g.succ.get(tnode(g, bid), ()) if l2 == nonzero]
+        # (the dispatch loop itself may decline — 'a queue has older statements that are not buffered yet' — and hand back to the read pass)
+        if g.exists_path(start, [tnode(g, b2) for (b2, l2) in edges], avoid_nodes=proc + cpos(f, r"::has_pending_events_for_caching_when_transit_event_buffer_empty$")):
+            skip_ok = False
+    ctx.ob("C07.R1c", "_exit:iteration-reads-and-processes", ok and skip_ok,
+           "every iteration that does not leave re-reads the frontend queues and, whenever the read pass buffered anything (count != 0, %d "
+           "guard(s)), dispatches before testing again" % guards, fn=f)
     r1d(ctx, facts, cfg)
 
 
@@ -484,6 +516,18 @@ def r6_api_layer(ctx, facts, cfg):
              "start_backend_thread() hands its options to BackendWorker::run() on every path", param_idx=0, obj_field="_backend_worker")
     forwards(ctx, facts, cfg, "C07.R6a", "quill::ManualBackendWorker::init", r"BackendWorker::_init$",
              "ManualBackendWorker::init() hands its options to BackendWorker::_init() on every path", param_idx=0)
+    # R6c: the signal handler decides 'am I the backend thread' (R4m) by this id: _init records the calling thread's id
+    ini = facts.need(BW + "_init", cfg)[0]
+    st = [n for n in ini.walk() if (atomic_op(n) or {}).get("kind") == "store" and is_this_field(atomic_op(n)["obj"], "_worker_thread_id") and
+          any(is_call(x, r"get_thread_id$") for x in walk(atomic_op(n).get("value")))]
+    thr_ = [q for x in ini.walk() if x["k"] == "CXXThrowExpr" for q in ini.g.positions(x)]
+    ctx.ob("C07.R6c", "BackendWorker::_init:records-worker-thread-id", bool(st) and not ini.g.exists_path([ini.g.entry_node], [ini.g.exit_node], avoid_nodes=npos(ini, st) + thr_),
+           "_init stores get_thread_id() of the thread that runs the backend into _worker_thread_id on every path that does not throw", fn=ini)
+    gb = facts.need(BW + "get_backend_thread_id", cfg)[0]
+    rets = [gb.g.node_ast(r) for r in gb.g.return_nodes()]
+    ctx.ob("C07.R6c", "BackendWorker::get_backend_thread_id:returns-it", bool(rets) and all((atomic_op(strip(r.get("val"), casts=True)) or {}).get("kind") == "load" and
+           is_this_field(atomic_op(strip(r.get("val"), casts=True))["obj"], "_worker_thread_id") for r in rets),
+           "get_backend_thread_id() returns a load of _worker_thread_id", fn=gb)
     for f in facts.need("quill::ManualBackendWorker::poll", cfg, floor=2):
         g = f.g
         timed = bool(f.rec.get("params"))
